@@ -121,6 +121,17 @@ chk("C15", "model_checking",
     "the --update-config dump and formatting are the observations of the loaded state; alias table taken from the reader's enum conversion",
     "exhaustive option x value x spelling enumeration with double round-trip and differential formatting oracle", "3/C15")
 
+chk("C09", "model_checking",
+    "Stateless exhaustive exploration on the real binary: (i) every Unicode scalar value except NUL/CR/LF (1,112,061; quick: the BMP) inside a "
+    "'//' comment, a string literal and an identifier, 512 per file, x {UTF-8, UTF-8+BOM, UTF-16LE+BOM, UTF-16BE+BOM}: output bytes equal "
+    "input bytes (failing files are bisected to single scalars); (ii) commutation: language skeletons with and without non-ASCII text x 6 "
+    "input encodings (incl. BOM-less UTF-16) x utf8_bom (4) x utf8_byte (2) x utf8_force (2) x profiles against the UTF-8 reference run and a "
+    "12-line reference function for output encoding and BOM; (iii) invalid input: all single bytes, all byte pairs (quick: over a 23-byte "
+    "boundary alphabet), all triples and (thorough) quadruples over that alphabet inside a comment, inside a string and at the start of "
+    "the file, UTF-16 lone/swapped surrogates and odd lengths: reproduced byte-wise or refused, never altered.",
+    "Python codecs as reference encoder/decoder; 512 scalars share a file (bisected on failure)",
+    "exhaustive enumeration over Unicode scalars x encodings and option product with transcoding-commutation oracle", "3/C09")
+
 
 def main():
     commits = subprocess.run(["git", "-C", "/repo", "log", "--format=%h %s"], stdout=subprocess.PIPE, text=True).stdout.splitlines()
